@@ -1,2 +1,202 @@
-//! Harnesses for property C16 (see /verif/properties.jsonl).
+//! Harnesses for property C16 (see /verif/properties.jsonl): responses never larger than the request.
+//!
+//! Call shape mirrored from /repo/ntpd/src/daemon/server.rs (ServerTask::serve):
+//!     let mut send_buf = [0u8; MAX_PACKET_SIZE];
+//!     self.server.handle(source_addr.ip(), convert_net_timestamp(timestamp),
+//!                        &buf[..length], &mut send_buf[..length], &mut self.stats)
+//! i.e. request = the first `length` bytes of the receive buffer, send buffer = the first `length`
+//! bytes of a zeroed MAX_PACKET_SIZE array. (The lead's source extractor ties this to the text.)
+//! Every C15 harness asserts the same bound for its inputs; the harnesses here add extension
+//! field layouts (unique identifiers, unknown fields, cookies/placeholders outside NTS, NTPv5
+//! draft identification, reference-id requests, padding, trailing MAC bytes).
+use crate::common::*;
 use crate::stubs;
+use ntp_proto::verif::{server as sh, time_types as tt};
+use ntp_proto::*;
+use std::net::{IpAddr, Ipv4Addr, Ipv6Addr};
+use std::time::Duration;
+
+const MAX_PACKET_SIZE: usize = 1024;
+
+/// The daemon's call, then the C16 + C21 assertions. Returns the outcome for cover goals.
+macro_rules! daemon_call {
+    ($server:expr, $client:expr, $recv:expr, $buf:expr, $length:expr, $stats:expr) => {{
+        let mut send_buf = [0u8; MAX_PACKET_SIZE];
+        let act = $server.handle($client, tt::ts_from_raw($recv), &$buf[..$length], &mut send_buf[..$length], &mut $stats);
+        let out = outcome(&act);
+        if out.kind.is_some() {
+            assert!(out.resp_len <= $length, "C16: response not longer than the request");
+            assert!(out.resp_len >= 48, "a response is at least a header");
+        }
+        check_stats!($stats, out);
+        out
+    }};
+}
+
+srv_harness! {
+    #[kani::unwind(4)]
+    fn c16_size() {
+        // U(52), every policy, every client family, cache slot in an arbitrary state
+        stubs::symbolic_clock();
+        let cfg = any_cfg(any_nets(), any_nets(), 1);
+        let info = any_server_info();
+        let now: u64 = kani::any();
+        let recv: u64 = kani::any();
+        let fam: u8 = kani::any();
+        kani::assume(fam <= 2);
+        let cb: [u8; 16] = kani::any();
+        let buf: [u8; 52] = kani::any();
+        let length: usize = kani::any();
+        kani::assume(length <= 52);
+        let seeded: bool = kani::any();
+        let client = client_addr(fam, cb);
+        let mut server = build_server(&cfg, SymClock { now: tt::ts_from_raw(now) }, info, zero_keyset());
+        if seeded {
+            // the same client was seen at the earliest possible instant
+            sh::server_cache_set_slot(&mut server, 0, Some((client, stubs::make_instant(0, 0))));
+        }
+        let mut stats = RecStats::new();
+        let out = daemon_call!(server, client, recv, buf, length, stats);
+        assert!(!stats.nts, "C21: plain request is never counted as NTS");
+        kani::cover!(out.kind == Some(Kind::Time) && out.resp_len == 48 && length == 52, "time answer shorter than the request");
+        kani::cover!(out.kind == Some(Kind::Time) && out.resp_len == length, "time answer as long as the request");
+        kani::cover!(out.kind == Some(Kind::DenyKiss), "deny kiss");
+        kani::cover!(out.kind.is_none() && stats.reason == ServerReason::RateLimit, "rate limited");
+        std::mem::forget(server);
+    }
+}
+
+/// NTPv4 template: header | EF1 (type symbolic, length L1) | EF2 (type symbolic, length L2) |
+/// trailer of 0..=24 symbolic bytes (MAC or garbage). Field contents symbolic. `L1`, `L2` are
+/// concrete multiples of 4 (0 = field absent); the length *fields* on the wire are symbolic
+/// but constrained to the template value or to a value that makes the packet malformed.
+#[cfg(kani)]
+fn size_v4(l1: usize, l2: usize, max_trailer: usize) {
+    let cfg = any_cfg(any_nets(), any_nets(), 0);
+    let info = any_server_info();
+    let now: u64 = kani::any();
+    let recv: u64 = kani::any();
+    let cb: [u8; 16] = kani::any();
+    let mut buf: [u8; 160] = kani::any();
+    let trailer: usize = kani::any();
+    kani::assume(trailer <= max_trailer);
+    let length = 48 + l1 + l2 + trailer;
+    kani::assume(length <= 160);
+    let mode: u8 = kani::any();
+    kani::assume(mode < 8);
+    set_version_mode(&mut buf, 4, mode);
+    // field types: any 16-bit value (unique id, cookie, placeholder, encrypted, v5-only, unknown)
+    if l1 > 0 {
+        put_ef_length(&mut buf, 48, l1 as u16);
+    }
+    if l2 > 0 {
+        put_ef_length(&mut buf, 48 + l1, l2 as u16);
+    }
+    let t1 = u16::from_be_bytes([buf[48], buf[49]]);
+    let t2 = u16::from_be_bytes([buf[48 + l1], buf[49 + l1]]);
+    let client = client_addr(0, cb);
+    let mut server = build_server(&cfg, SymClock { now: tt::ts_from_raw(now) }, info, zero_keyset());
+    let mut stats = RecStats::new();
+    let out = daemon_call!(server, client, recv, buf, length, stats);
+    assert!(out.kind != Some(Kind::Time) || !stats.nts, "C21: no cookie can decode here, so a time answer is never counted as NTS");
+    kani::cover!(out.kind == Some(Kind::Time) && l1 > 0 && t1 == 0x0104 && out.resp_len > 48, "unique identifier echoed");
+    kani::cover!(out.kind == Some(Kind::Time) && l1 > 0 && t1 != 0x0104 && out.resp_len == 48, "other field dropped from the answer");
+    kani::cover!(out.kind == Some(Kind::Time) && l2 > 0 && t1 == 0x0104 && t2 == 0x0104 && out.resp_len == 48 + l1 + l2, "two unique identifiers echoed");
+    kani::cover!(out.kind.is_none() && stats.reason == ServerReason::InternalError, "answer did not fit the request-sized buffer: nothing sent");
+    kani::cover!(out.kind == Some(Kind::NakKiss), "undecryptable field answered with NAK");
+    kani::cover!(out.kind == Some(Kind::DenyKiss) && out.resp_len > 48, "deny kiss echoes the unique identifier");
+    std::mem::forget(server);
+}
+
+srv_harness! {
+    #[kani::unwind(36)]
+    fn c16_size_v4_uid16() {
+        // shortest field the v4 parser accepts next to a trailer: 16-byte field + 9..=24 trailing bytes
+        size_v4(16, 0, 24);
+    }
+}
+
+srv_harness! {
+    #[kani::unwind(36)]
+    fn c16_size_v4_uid36() {
+        // 36-byte field (32-byte unique identifier as sent by NTS clients), trailer 0..=24
+        size_v4(36, 0, 24);
+    }
+}
+
+srv_harness! {
+    #[kani::unwind(36)]
+    fn c16_size_v4_two() {
+        // two fields (36 + 28 bytes), trailer 0..=24: 112..=136 bytes
+        size_v4(36, 28, 24);
+    }
+}
+
+srv_harness! {
+    #[kani::unwind(36)]
+    fn c16_size_v4_two_short() {
+        // two short fields (16 + 16 bytes), trailer 0..=24
+        size_v4(16, 16, 24);
+    }
+}
+
+/// NTPv5 template: header | draft identification EF (28 bytes, contents symbolic) | EF2 (type
+/// symbolic, wire length L2 or L2-1..L2-3 (v5 lengths need not be multiples of 4)) | trailer.
+#[cfg(kani)]
+fn size_v5(l2: usize, max_trailer: usize) {
+    stubs::symbolic_rng();
+    let cfg = any_cfg(any_nets(), any_nets(), 0);
+    let info = any_server_info();
+    let now: u64 = kani::any();
+    let recv: u64 = kani::any();
+    let cb: [u8; 16] = kani::any();
+    let mut buf: [u8; 160] = kani::any();
+    let trailer: usize = kani::any();
+    kani::assume(trailer <= max_trailer);
+    let length = 48 + 28 + l2 + trailer;
+    kani::assume(length <= 160);
+    let mode: u8 = kani::any();
+    kani::assume(mode < 8);
+    set_version_mode(&mut buf, 5, mode);
+    put_ef_header(&mut buf, 48, 0xF5FF, 27);
+    let slack: usize = kani::any();
+    kani::assume(slack <= 3);
+    if l2 > 0 {
+        put_ef_length(&mut buf, 76, (l2 - slack) as u16);
+    }
+    let t2 = u16::from_be_bytes([buf[76], buf[77]]);
+    let client = client_addr(0, cb);
+    let mut server = build_server(&cfg, SymClock { now: tt::ts_from_raw(now) }, info, zero_keyset());
+    let mut stats = RecStats::new();
+    let out = daemon_call!(server, client, recv, buf, length, stats);
+    kani::cover!(out.kind == Some(Kind::Time) && out.resp_len == length, "v5 time answer padded to the request size");
+    kani::cover!(out.kind == Some(Kind::Time) && l2 > 0 && t2 == 0x0104, "v5 unique identifier echoed");
+    kani::cover!(out.kind == Some(Kind::Time) && l2 > 0 && t2 == 0xF503, "v5 reference id request answered");
+    kani::cover!(out.kind == Some(Kind::DenyKiss), "v5 deny kiss");
+    kani::cover!(out.kind.is_none() && stats.reason == ServerReason::InternalError, "v5 answer did not fit: nothing sent");
+    std::mem::forget(server);
+}
+
+srv_harness! {
+    #[kani::unwind(36)]
+    fn c16_size_v5() {
+        // header + draft identification only, trailer 0..=8 (76..=84 bytes)
+        size_v5(0, 8);
+    }
+}
+
+srv_harness! {
+    #[kani::unwind(36)]
+    fn c16_size_v5_ef() {
+        // + one more field of 13..=16 bytes on the wire, trailer 0..=8
+        size_v5(16, 8);
+    }
+}
+
+srv_harness! {
+    #[kani::unwind(36)]
+    fn c16_size_v5_ef40() {
+        // + one more field of 37..=40 bytes (32-byte unique id / 36-byte reference id request payload)
+        size_v5(40, 4);
+    }
+}
